@@ -99,7 +99,7 @@ fn setup(kind: Kind, shape: &Shape, value: u64, spec: SpecId) -> Setup {
     block.basefee = if spec >= SpecId::LONDON { 7 } else { 0 };
     let tx = match kind {
         Kind::CreateTx => TxSpec { to: None, data: init_code(), value: U256::from(value), gas_limit: 500_000, gas_price: U256::from(10u64), nonce: Some(3), ..Default::default() },
-        _ => TxSpec { to: Some(CREATOR), gas_limit: 1_000_000, gas_price: U256::from(10u64), nonce: Some(3), ..Default::default() },
+        _ => TxSpec { to: Some(CREATOR), gas_limit: 10_000_000, gas_price: U256::from(10u64), nonce: Some(3), ..Default::default() },
     };
     Setup { world_full: w, target, tx, block }
 }
